@@ -347,7 +347,7 @@ fn calculate_length(bufs: &mut CurveBuffers, expected_len: Option<f64>, optimize
     cumulative_len.extend(length_iter);
 
     if let Some(expected_len) =
-        expected_len.filter(|&len| (calculated_len - len).abs() >= f64::EPSILON)
+        expected_len.filter(|&len| (calculated_len - len).abs() > 0.0)
     {
         // * In osu-stable, if the last two path points of a slider are equal, extension is not performed
         if matches!(path.as_slice() , [.., a, b] if a == b && expected_len > calculated_len) {
